@@ -148,10 +148,14 @@ def handle (sess0 : Sess) (rep : Report) (ln : Nat) (toks : List String) (obs : 
             let (s1, r) := step s (.call t c true)
             let rets := match r with | some .blocked => rets | some x => rets ++ [(t, x)] | none => rets
             settle s1 rets 64
+          -- either order of the two callers; the model continues from the one the implementation printed
           let (s1, rets1) := runCall s 0 ca []
           let (s2, rets2) := runCall s1 3 cb rets1
-          let mine := summarySorted s2 rets2
+          let (t1, retsB1) := runCall s 3 cb []
+          let (t2, retsB2) := runCall t1 0 ca retsB1
+          let mine := summary s2 rets2
           if mine == obs then (some s2, rep)
+          else if summary t2 retsB2 == obs then (some t2, rep.bump "st.second_caller_went_first")
           else (none, { rep.msg s!"DIVERGE line={ln} model={mine} impl={obs}" with diverged := rep.diverged + 1 })
         | _, _ => (sess, rep.msg s!"BAD line={ln}")) hist
     else
